@@ -39,6 +39,19 @@ int main() {
         if (c == "mm") R = A * B; else if (c == "tm") R = trans(A) * B; else if (c == "mt") R = A * trans(B);
         else if (c == "tt") R = trans(A) * trans(B); else if (c == "add") R = A + B; else R = A - B;
         outM(R);
+      } else if (c == "tadd" || c == "tsub" || c == "tsc") {
+        // member operators of TransMat: trans(A) + trans(B), trans(A) - trans(B), trans(A) * 2
+        M A = readM(), B = readM(); M R;
+        if (c == "tadd") R = trans(A) + trans(B); else if (c == "tsub") R = trans(A) - trans(B); else R = trans(A) * 2.0;
+        outM(R);
+      } else if (c == "symmul") {
+        // product of two symmetric matrices given in full: a general matrix
+        M A = readM(), B = readM(); const int n = A.rows();
+        SymMat<double, int, Exception::matvec> SA(n), SB(B.rows());
+        for (int i = 1; i <= n; i++) for (int j = 1; j <= i; j++) SA(i, j) = A(i, j);
+        for (int i = 1; i <= B.rows(); i++) for (int j = 1; j <= i; j++) SB(i, j) = B(i, j);
+        M R = SA * SB;
+        outM(R);
       } else if (c == "mv" || c == "tmv") {
         M A = readM(); V v = readV(); V r = (c == "mv") ? V(A * v) : V(trans(A) * v); outV(r);
       } else if (c == "vm" || c == "vmb") {
